@@ -28,6 +28,7 @@ import (
 	"unicode/utf8"
 
 	"pgregory.net/rapid"
+	"rare/cmd/helpers"
 	"rare/pkg/multiterm"
 	"verifharness/pbt"
 )
@@ -246,6 +247,22 @@ func checkHistory(c HistCase) error {
 	}
 	if err := judgeLines(c, m, out); err != nil {
 		return fmt.Errorf("BufferedTerm (width %d, trim %v): %v\nprinted: %s", c.Width, c.Trim, err, q(string(out)))
+	}
+
+	// 2b. the writer the commands obtain (cmd/helpers BuildVTerm) for
+	// --snapshot and for piped output: while captured, stdout is a regular
+	// file, i.e. "piped", so both calls must hand out the buffered writer.
+	for _, snap := range []bool{true, false} {
+		out, err := capture(func() { apply(helpers.BuildVTerm(snap), c) })
+		if err != nil {
+			if _, hang := err.(pbt.ErrHang); hang {
+				return err
+			}
+			return fmt.Errorf("helpers.BuildVTerm(snapshot=%v), stdout not a terminal: %v", snap, err)
+		}
+		if err := judgeLines(c, m, out); err != nil {
+			return fmt.Errorf("helpers.BuildVTerm(snapshot=%v) with stdout not a terminal (width %d, trim %v) does not print the final lines top to bottom: %v\nprinted: %s", snap, c.Width, c.Trim, err, q(string(out)))
+		}
 	}
 
 	// 3. the line store it is built on, flushed to an explicit writer.
@@ -638,15 +655,15 @@ func classifyHistory(c HistCase) (bool, []string) {
 
 var trimSpec = pbt.Spec[TrimCase]{
 	Property: "C20", Name: "trim",
-	Rule: "text = motif of narrow runes (ASCII incl. 'm','[',';' / Latin-1, Greek, Cyrillic, box+block elements, 4-byte math letters) with visible length drawn relative to the width (0, 1..3, <=w, w-1, w, w+1, w+1..w+12) and 0..4 well-formed SGR sequences at start / end / around the cut / anywhere; width 1..200 (biased small); trim on (90%) / off. Oracle: emitted bytes are a prefix of the text, end on a token boundary (not inside ESC[..m, not inside a rune), hold <= w visible runes, hold min(w, visible) visible runes, and equal the text when it fits; trim off: unchanged. Non-trivial: trim on and visible length > width",
-	Budget: pbt.Budget{Quick: 120000, Thorough: 3000000},
+	Rule:   "text = motif of narrow runes (ASCII incl. 'm','[',';' / Latin-1, Greek, Cyrillic, box+block elements, 4-byte math letters) with visible length drawn relative to the width (0, 1..3, <=w, w-1, w, w+1, w+1..w+12) and 0..4 well-formed SGR sequences at start / end / around the cut / anywhere; width 1..200 (biased small); trim on (90%) / off. Oracle: emitted bytes are a prefix of the text, end on a token boundary (not inside ESC[..m, not inside a rune), hold <= w visible runes, hold min(w, visible) visible runes, and equal the text when it fits; trim off: unchanged. Non-trivial: trim on and visible length > width",
+	Budget: pbt.Budget{Quick: 96000, Thorough: 1200000},
 	Gen:    genTrim, Check: checkTrim, Classify: classifyTrim,
 }
 
 var histSpec = pbt.Spec[HistCase]{
 	Property: "C20", Name: "history",
-	Rule: "1..40 updates (line from a per-case pool of 1..8 indexes in 0..40, biased low; text as in 'trim'; WriteForLine or WriteForLinef) + Close, width 1..200, trim on (80%) / off (then mostly only fitting texts); applied to multiterm.New() with stdout captured, to BufferedTerm and to VirtualTerm.WriteToOutput. Oracle: reference terminal (deferred wrap, unbounded rows) interprets the emitted bytes: stream well-formed, no wrap, every written row shows the first min(w,n) visible runes of its last text, every other row blank, cursor on row max+1 column 0 and visible after Close; buffered/virtual: exactly lines 0..max, newline-terminated, each obeying the trim laws (or unchanged with trim off). Non-trivial: >=6 updates touching >=3 lines with an upward jump, a rewrite with a shorter text and (trim on) a text longer than the width",
-	Budget: pbt.Budget{Quick: 60000, Thorough: 2000000},
+	Rule:   "1..40 updates (line from a per-case pool of 1..8 indexes in 0..40, biased low; text as in 'trim'; WriteForLine or WriteForLinef) + Close, width 1..200, trim on (80%) / off (then mostly only fitting texts); applied to multiterm.New() with stdout captured, to BufferedTerm, to helpers.BuildVTerm(true|false) with stdout not a terminal, and to VirtualTerm.WriteToOutput. Oracle: reference terminal (deferred wrap, unbounded rows) interprets the emitted bytes: stream well-formed, no wrap, every written row shows the first min(w,n) visible runes of its last text, every other row blank, cursor on row max+1 column 0 and visible after Close; buffered/virtual: exactly lines 0..max, newline-terminated, each obeying the trim laws (or unchanged with trim off). Non-trivial: >=6 updates touching >=3 lines with an upward jump, a rewrite with a shorter text and (trim on) a text longer than the width",
+	Budget: pbt.Budget{Quick: 48000, Thorough: 800000},
 	Gen:    genHistory, Check: checkHistory, Classify: classifyHistory,
 }
 
